@@ -56,9 +56,9 @@ add("C03", "c_updates",
 add("C24", "c_rpc",
     [T("TestC24", 60000, 400000, env=BUBBLE)],
     pre=["TestC24Regression"],
-    rule="owned schedules over the real rpc.Engine in a synctest bubble: 1..3 concurrent Do calls; drawn actions start/ack/valid result/undecodable result/rpc error/duplicate/foreign result/cancel/ForceClose/retry-interval tick/release of a goroutine parked at a scheduling point (rpc: after handler lookup in NotifyResult/NotifyError, before Output.Decode, before Do's final select, before drop; harness: inside Decode); which points park is drawn per case. non-trivial = a result is delivered while its call races with cancel/close, or a duplicate/foreign/late result occurs; distinct by action list",
+    rule="owned schedules over the real rpc.Engine in a synctest bubble: 1..3 concurrent Do calls; drawn actions start/ack/valid result/undecodable result/rpc error/duplicate/foreign result/cancel/ForceClose/retry-interval tick/release of a goroutine parked at a scheduling point (rpc: after handler lookup in NotifyResult/NotifyError, before Output.Decode, before Do's final select, before drop; harness: inside Decode, and every log record the engine writes outside its mutex - the harness owns the logger); the same message id issued again after an rpc error (as Invoke does on bad_server_salt); acks/results/errors only for requests whose first transmission happened; which points park is drawn per case. non-trivial = a result is delivered while its call races with cancel/close, or a duplicate/foreign/late result occurs; distinct by action list",
     technique="stateful PBT with an owned schedule (rapid-drawn choices over build-tagged scheduling points, testing/synctest) + history oracle over one totally ordered event log",
-    text="Every Do returns exactly once with an outcome that a delivered event explains; its Output sees at most one decode, only bytes naming its own id, and no decode start or end after Do returned. Schedules are sampled at hook-point granularity.",
+    text="Every Do returns exactly once with an outcome that a delivered event explains; a valid result delivered while the call was pending and undisturbed makes it return nil; its Output sees at most one decode, only bytes naming its own id, and no decode start or end after Do returned. Schedules are sampled at hook-point granularity.",
     note="Preemption is modelled only at the hook points; the harness send/drop/recorder are the environment. Trusts testing/synctest for quiescence.",
     assumptions=["hook-point granularity: a race needing a preemption between two statements with no point in between is out of reach"])
 
@@ -72,7 +72,8 @@ add("C25", "c_rpc",
 
 add("C26", "c_rpc",
     [T("TestC26", 60000, 400000, env=BUBBLE)],
-    rule="same machine as C24; after ForceClose all parked goroutines are released and every pending Do and ForceClose itself must have returned with no virtual time elapsed; classification oracle: sent+never acked => errors.Is(err, rpc.ErrEngineClosed) (what pool/telegram treat as retryable), ack delivered before close => non-nil error that is not ErrEngineClosed, started after close => ErrEngineClosed; drop handler called exactly once iff Do returned the caller's context error and the first send had returned nil. non-trivial = close/cancel between send and ack, between ack and result, or while send is blocked; distinct by action list",
+    pre=["TestC26Regression_resend_stuck_at_close"],
+    rule="same machine as C24 (retransmissions have scripted outcomes ok/fail/stuck; the connection and the engine go down in either order); after ForceClose all parked goroutines are released and every pending Do and ForceClose itself must have returned with no virtual time elapsed; classification oracle: sent+never acked => errors.Is(err, rpc.ErrEngineClosed) (what pool/telegram treat as retryable), ack delivered before close => non-nil error that is not ErrEngineClosed, started after close => ErrEngineClosed; drop handler called exactly once iff Do returned the caller's context error and the first send had returned nil. non-trivial = close/cancel between send and ack, between ack and result, or while send is blocked; distinct by action list",
     technique="stateful PBT with an owned schedule (rapid + synctest + scheduling points), promptness watchdog on virtual time",
     text="Sampled schedules; promptness is asserted as 'zero virtual time after releasing all scheduling points'; retryability is asserted against the predicate pool.errRetryableOnNewConn/telegram.errRetryableOnNewConn use (errors.Is ErrEngineClosed).",
     note="A send that is blocked when the engine closes is ended by the harness (the connection closes with the engine in mtproto.Conn); such calls are excluded from the classification oracle.",
@@ -180,7 +181,7 @@ add("C19", "c_transport",
 
 
 add("C32", "c_files",
-    [T("TestC32", 2000, 4000, env=BUBBLE), T("TestC32Boundaries", 1, 1, rapid=False, env=BUBBLE, timeout_thorough=2400)],
+    [T("TestC32", 1500, 4000, env=BUBBLE), T("TestC32Parallel", 1000, 4000, env={"GOMAXPROCS": "4"}), T("TestC32Boundaries", 1, 1, rapid=False, env=BUBBLE, timeout_thorough=2400)],
     pre=["TestC32Regression_unknown_total_exact_multiple"],
     rule="deterministic generator sources (byte=f(seed,offset), short reads, EOF with or after the last bytes), known total or -1, automatic / explicit valid / explicit invalid part sizes, 1..8 threads, sizes around k*part, 10 MiB+-1, 3999*part+-1 (2 GB class in thorough only), mock server answering true/false/FLOOD_WAIT_n/FLOOD_PREMIUM_WAIT_n from a drawn (part, attempt) script with virtual latencies. non-trivial = (n>=2 and >=1 retry) or size within +-1 of a threshold; distinct by parameters",
     technique="model-based PBT on virtual time (rapid + testing/synctest): part ledger vs. the source",
